@@ -19,6 +19,14 @@ Theorem C16_successful_command_keeps_effects : forall s st acts st' o,
                   = (st2, ls2, o) /\ x_cache st' = x_cache st2 /\ x_log st' = x_log st2.
 Proof. exact successful_command_keeps_effects. Qed.
 
+(* a transaction that turns out INVALID (a Before/AfterCommandExecute hook fails, the command does not exist, the command's
+   own snapshot is gone) leaves the staged store exactly as it was when ExecuteTransaction was entered (fix f89ea6f): block
+   generation skips such a transaction and keeps using the context.  [tx_no_root_restore]: module code restores only
+   snapshots of views (context-level snapshot ids are relative to the context's history). *)
+Theorem C16_invalid_transaction_is_noop_on_state : forall s st t st' o, tx_no_root_restore t ->
+  execute_tx s st t = (st', XInvalid, o) -> x_cache st' = x_cache st.
+Proof. exact invalid_transaction_is_noop_on_state. Qed.
+
 (* events after a failed command = events before ++ the command's unrevertible events (re-indexed) *)
 Theorem C16_events_on_failure : forall s st acts st' o,
   command_phase s st (acts, true) = (st', Some false, o) ->
